@@ -20,8 +20,8 @@ type vLink struct {
 	lat    time.Duration
 	sent   int
 	// blackhole: drop everything
-	dead bool
-	dups int
+	dead   bool
+	dups   int
 	faulty int
 	// hold: packets are kept back (not delivered) until released
 	hold    bool
@@ -97,12 +97,12 @@ func (l *vLink) recv(ctx context.Context) ([]byte, error) {
 }
 
 type vPair struct {
-	cli, srv   *GoBackNConn
-	c2s, s2c   *vLink
-	ctx        context.Context
-	cancel     func()
-	cliErr     error
-	srvErr     error
+	cli, srv *GoBackNConn
+	c2s, s2c *vLink
+	ctx      context.Context
+	cancel   func()
+	cliErr   error
+	srvErr   error
 }
 
 // vConnect runs the real NewClientConn / NewServerConn against each other.
